@@ -20,6 +20,18 @@ CLAIMS = {
         note="Trusted: str.startswith/slicing semantics; an acceptance test written in an idiom outside the table is reported as a violation only for the bare-startswith anti-idiom, otherwise as an unmatched acceptance path.",
         ref="DESIGN.md section 3, C09",
     ),
+    "C13": dict(
+        technique="static analysis: who-may-write scan + path-fact dominance of the header store, exhaustive check of the folded cookie escape table over 0-255, provenance of the Location header, source scan of list_headers",
+        text="Decides on the code's shape, for all strings and all mutation sequences: the only store into the header mapping's backing dict is in __setitem__ and every path to it has rejected CR, LF and NUL in both key and value (append/update/setdefault funnel through it; nothing outside the class touches the dict); for every code point 0-255 the cookie escaper emits either a safe single character, an escape pair or a 3-digit octal escape and never a raw ';', CR, LF, NUL, quote or backslash, and both name and value pass it; the redirect target passes iri_to_uri = quote(iri, safe=S) with S free of CR LF NUL SP; list_headers emits only the checked mapping and Cookie objects.",
+        note="Trusted: typing.MutableMapping mixins route through __setitem__/__delitem__; urllib.parse.quote contract. The constructor path MutableHeaders(headers) is unchecked by the code and outside the statement's quantifier (recorded as an observation).",
+        ref="DESIGN.md section 3, C13",
+    ),
+    "C16": dict(
+        technique="static analysis: writer/reader table agreement enumerated over 0-255 on folded constants + reader structure extracted from the AST; API-provenance rule for UTC datetimes; argument pass-through on all paths of set_cookie",
+        text="Decides the per-character clause exactly (for every code point 0-255: what the writer emits is ASCII, contains no separator the reader splits on, and is inverted by the reader's unquoting; raw-path and empty-value side conditions), the Expires provenance (the datetime formatted with a literal GMT is UTC-aware and equals time.time()+expires), Max-Age pass-through and delete_cookie constants. Does not decide multi-cookie header interplay beyond the separator argument.",
+        note="Trusted: http.cookies._unquote contract (re-stated in the checker), str.strip/split semantics, strftime %a/%b under the C locale.",
+        ref="DESIGN.md section 3, C16",
+    ),
 }
 
 NOT_APPLICABLE = {
